@@ -421,6 +421,24 @@ func exploreNode(c *vx.Ctx, props string, maxDev int, bfsDepth int, st *exploreS
 		}
 	}
 	c.Extra["engine_batched_input_executions"] = nb
+	// A slow strategy (see exploreBare): the scripted answer does not come, one core-alphabet event happens meanwhile.
+	nSlow := 0
+	coreAlpha := nodeAlphabet("core")
+	for pos, ev := range script {
+		if ev != "SR" || pos >= 30 {
+			continue
+		}
+		for q := pos + 1; q <= pos+2 && q <= len(script); q++ {
+			for _, ins := range coreAlpha {
+				if strings.HasPrefix(ins, "SR") {
+					continue
+				}
+				jobs = append(jobs, nodeJob(props, fmt.Sprintf("%d:-", pos), fmt.Sprintf("%d:+%s", q, ins)))
+				nSlow++
+			}
+		}
+	}
+	c.Extra["engine_slow_strategy_executions"] = nSlow
 	c.Extra["engine_script_len"] = len(script)
 	c.Extra["engine_alphabet_full"] = len(nodeAlphabet("full"))
 	c.Extra["engine_single_deviations"] = len(singles)
@@ -718,6 +736,24 @@ func exploreBare(c *vx.Ctx, props string, maxDev int, bfsDepth int, st *exploreS
 			jobs = append(jobs, job(fmt.Sprintf("%d:~SR:propose", pos), fmt.Sprintf("%d:+PROP", q)))
 		}
 	}
+	// A slow strategy: the scripted answer at pos does not come (the call stays pending and is answered by the next
+	// scripted SR), and meanwhile one more event happens within the next 3 positions.
+	nSlow := 0
+	for pos, ev := range script {
+		if ev != "SR" {
+			continue
+		}
+		for q := pos + 1; q <= pos+3 && q <= len(script); q++ {
+			for _, ins := range alpha {
+				if strings.HasPrefix(ins, "SR") {
+					continue
+				}
+				jobs = append(jobs, job(fmt.Sprintf("%d:-", pos), fmt.Sprintf("%d:+%s", q, ins)))
+				nSlow++
+			}
+		}
+	}
+	c.Extra["bare_sm_slow_strategy_executions"] = nSlow
 	c.Extra["bare_sm_script_len"] = len(script)
 	c.Extra["bare_sm_alphabet"] = len(alpha)
 	c.Extra["bare_sm_single_deviations"] = len(singles)
@@ -754,6 +790,9 @@ func exploreBare(c *vx.Ctx, props string, maxDev int, bfsDepth int, st *exploreS
 			hist []string
 		}
 		frontier := []node{{2, nil}, {4, nil}, {6, nil}, {12, nil}, {14, nil}}
+		// A state the script never passes through: the state machine has jumped to round 1 while the rest of the network
+		// commits the height in round 0 (late precommits), and the mirror signals the height as committed.
+		frontier = append(frontier, node{2, []string{"V:p:oh:A@0,1", "ENT", "SR", "V:c:oh:A@0,-1", "V:c:3:A@0,-1", "HC"}})
 		levelDone := -1
 		for d := 0; d <= bfsDepth && len(frontier) > 0; d++ {
 			js := make([]vx.Job, len(frontier))
